@@ -917,6 +917,59 @@ def shrink_reload(ctx, spec, case, ref, key):
     return dict(case, acts=small)
 
 
+def judge_failed_startup(ctx, res, spec, case, ref, first, full):
+    """the save at the end of start-up hit the injected fault and module creation raised: that save is a save like any
+    other (and the only one that can meet a missing file) - the file must be the complete old or the complete new
+    snapshot at every moment, nothing may be left behind, and the next start-up must work"""
+    twin_case = dict(case, fault=None, acts=[])
+    twin_impl = run_impl(spec, twin_case, trials=False)
+    twin = twin_impl['steps'][0]
+    if twin['values'] is None or not twin['evs']:
+        return
+    new = new_bytes(twin['data'])
+    # correspondence of the failed call: operations, fault mark, "raised", both files
+    if ctx.model_ok:
+        tables = history_tables(spec, twin_case, ref, twin_impl)
+        del _laws[:]
+        mo = ctx.driver.batch([model_request(spec, dict(case, acts=[]), ref, {'steps': [first]}, tables)])[0]
+        if 'driver_error' in mo:
+            raise RuntimeError(f'driver error: {mo}')
+        keys = ('evs', 'raised', 'target', 'tmp')
+        got, want = obs_step(first), mo['steps'][0]
+        if any(got[k] != want[k] for k in keys):
+            res.disagreements.append({'case': full, 'first_bad_step': 0, 'model': {k: want[k] for k in keys},
+                                      'impl': {k: got[k] for k in keys}})
+    reqs = [{'p': 'C17', 'k': 'judge_snapshots', 'old': hexo(first['pre'][0]), 'new': new.hex(),
+             'snaps': [hexo(s[0]) for s in first['snaps']]},
+            {'p': 'C17', 'k': 'judge_litter', 'target': TARGET, 'listing': first['listing']}]
+    again = restart(spec, first['target'], first['tmp'])
+    if again['values'] is None:
+        res.violations.append({'sig': 'C17:startup-aborted-after-crash:' + str(again['exc']),
+                               'what': f'after a start-up whose save failed ({first["exc"]}), the next module creation raised {again["exc"]}',
+                               'case': full})
+    else:
+        old = restart(spec, first['pre'][0], None)
+        reqs.append({'p': 'C17', 'k': 'judge_restore',
+                     'saved': [nongiven_saved(spec, ref, old['values'] or []), nongiven_saved(spec, ref, twin['values'])],
+                     'restored': again['values']})
+    ans = ctx.driver.batch(reqs)
+    res.traces += len(reqs)
+    res.count('start.failed-save-judged')
+    k = next((i for i, e in enumerate(first['evs']) if e[-1] == 'FAULT'), None)
+    res.count('start.fault.at.' + (first['evs'][k][0] if k is not None else 'unreached'))
+    if ans[0]['bad'] is not None:
+        snap = first['snaps'][ans[0]['bad']][0]
+        res.violations.append({'sig': 'C17:file-empty' if snap == b'' else 'C17:file-partial-or-foreign',
+                               'what': f'after operation {ans[0]["bad"]} ({first["evs"][ans[0]["bad"]][:2]}) of the save of a start-up that failed '
+                                       f'the persistent file holds neither the old nor the new snapshot: {snap[:80]!r}', 'case': full})
+    if not ans[1]['ok']:
+        res.violations.append({'sig': 'C17:tmp-left-behind',
+                               'what': f'after the failed start-up the directory holds {first["listing"]}', 'case': full})
+    if len(ans) > 2 and not ans[2]['ok']:
+        res.violations.append({'sig': 'C17:crash-restore-mixed',
+                               'what': 'values restored after a failed start-up are neither the old nor the new set', 'case': full})
+
+
 def check_case(ctx, res, spec, case, quick_crash=3, kind='history'):
     """run one history on the implementation, compare with the model, judge; appends to res"""
     rng = ctx.rng
@@ -935,6 +988,8 @@ def check_case(ctx, res, spec, case, quick_crash=3, kind='history'):
             res.violations.append({'sig': 'C17:startup-aborted:' + str(first['exc']),
                                    'what': f'module creation raised {first["exc"]} with stored file content '
                                            f'{bytes.fromhex(case["file"] or "")[:60]!r}', 'case': full})
+        else:
+            judge_failed_startup(ctx, res, spec, case, ref, first, full)
         res.count('start.aborted')
         return
     tables = history_tables(spec, case, ref, impl)
@@ -1096,6 +1151,22 @@ def check_case(ctx, res, spec, case, quick_crash=3, kind='history'):
     return impl
 
 
+def slim(tables, filehex):
+    """the part of the oracle tables the judges of one file content look at (plumbing: a request carries the entries for its
+    own file instead of those of the whole case; an entry missing by mistake yields the marked value that fails the judge)"""
+    parse = [e for e in tables['parse'] if e['hex'] == filehex]
+    wanted = set()
+    for e in parse:
+        d = e['dec']
+        if d and d.get('kind') == 'obj':
+            for k, j in d['pairs']:
+                wanted.add((k, json.dumps(j, sort_keys=True)))
+    imp = [e for e in tables['imp'] if (e['name'], json.dumps(e['json'], sort_keys=True)) in wanted]
+    vals = {(e['name'], e['val']) for e in imp if e['val'] is not None}
+    wval = [e for e in tables['wval'] if (e['name'], e['val']) in vals]
+    return {'parse': parse, 'ser': [], 'imp': imp, 'exp': [], 'wval': wval}
+
+
 def reload_request(ref, file, history_values, actual_values, tables):
     """one call of loadParameters(): `file` = content of the file when it was called, `history_values` = the value
     lists at the end of start-up and after every action before the call"""
@@ -1103,14 +1174,14 @@ def reload_request(ref, file, history_values, actual_values, tables):
     hist = [dict(map(tuple, v)) for v in history_values]
     obs = [{'name': n, 'persistent': ref['persistent'][n], 'hasWrite': ref['hasWrite'][n], 'before': hist[-1][n],
             'held': [h[n] for h in hist], 'actual': actual[n]} for n, _ in ref['values']]
-    return {'p': 'C17', 'k': 'judge_reload', 'tables': tables, 'file': hexo(file), 'obs': obs}
+    return {'p': 'C17', 'k': 'judge_reload', 'tables': slim(tables, hexo(file)), 'file': hexo(file), 'obs': obs}
 
 
 def start_request(spec, ref, filehex, actual_values, tables):
     given = set(spec['cfg'])
     obs = [{'name': n, 'persistent': ref['persistent'][n], 'given': n in given, 'init': v,
             'actual': dict(map(tuple, actual_values))[n]} for n, v in ref['values']]
-    return {'p': 'C17', 'k': 'judge_start', 'tables': tables, 'file': filehex, 'obs': obs}
+    return {'p': 'C17', 'k': 'judge_start', 'tables': slim(tables, filehex), 'file': filehex, 'obs': obs}
 
 
 # ----------------------------------------------------------------------------------------
@@ -1338,6 +1409,11 @@ def run(ctx):
                 if rng.random() < 0.5:
                     # the documented reaction to a power cycle found at the first poll: reload right after start-up
                     case['acts'].insert(rng.choice([0, 0, 1]), {'a': 'load'})
+        if case.get('fault') is not None:
+            # a fault in the save of start-up: aim at every kind of operation (open, first / last write, close, rename, remove)
+            n = len(run_impl(spec, dict(case, fault=None, acts=[]), trials=False)['steps'][0]['evs'])
+            if n:
+                case['fault']['idx'] = rng.choice([0, 1, n - 4, n - 3, n - 2, n - 1, rng.randrange(n)]) % n
         check_case(ctx, res, spec, case, quick_crash=None if big else 4)
     for _ in range(ctx.budget(12, 40)):
         check_corruptions(ctx, res, gen_spec(rng, False), big)
